@@ -95,6 +95,31 @@ def directed_handle_histories():
     return hs
 
 
+def two_handle_histories():
+    """Two handles on one file whose lifetimes overlap, used one after the other (one client): the second handle is opened while
+    the file is still empty (or short), the first one writes and closes, then the second one writes. What the second handle knows
+    from the time it was opened must not decide what it loads when it starts to write. Compared with two os.File handles on one file
+    (not evaluated on the single-handle model File.v)."""
+    hs = []
+    k = 0
+    A = base64.b64encode(pat(2, 0, 6)).decode()
+    B = base64.b64encode(pat(3, 0, 2)).decode()
+    for size0 in (0, 3):
+        for fa in (hist.O_WRONLY | hist.O_APPEND, hist.O_RDWR):
+            for fb in (hist.O_RDWR, hist.O_WRONLY | hist.O_APPEND, hist.O_WRONLY):
+                for bop in ("write", "writeat", "truncate"):
+                    if bop == "writeat" and fb & hist.O_APPEND:
+                        continue
+                    act = {"write": {"op": "write", "h": "b", "data": B}, "writeat": {"op": "writeat", "h": "b", "off": 1, "data": B}, "truncate": {"op": "truncate", "h": "b", "off": 4}}[bop]
+                    calls = [{"op": "initialize"}, {"op": "createfile", "name": "/f", "blob": 0}, {"op": "open", "h": "a", "name": "/f", "flags": fa, "perm": 0o644},
+                             {"op": "open", "h": "b", "name": "/f", "flags": fb, "perm": 0o644}, {"op": "write", "h": "a", "data": A}, {"op": "close", "h": "a"},
+                             act, {"op": "close", "h": "b"}, {"op": "readfile", "name": "/f"}, {"op": "stat", "name": "/f"}]
+                    hs.append({"config": {"rs": [1, 3, 20][k % 3], "cache": ["file", "memory"][k % 2] if bop == "write" else "file"}, "blobs": [{"seed": 1, "len": size0}, {"seed": 2, "len": 6}, {"seed": 3, "len": 2}],
+                               "obs": [], "calls": calls, "_directed": True, "_nomodel": True})
+                    k += 1
+    return hs
+
+
 def run_ref(h):
     pr = subprocess.run([hist.STFSDRV, "ref"], input=json.dumps(h), stdout=subprocess.PIPE, stderr=subprocess.PIPE, text=True,
                         timeout=120, env=dict(ENV, VERIF_SCRATCH=hist.scratch_dir()))
@@ -110,7 +135,7 @@ def handle_stream(ctx):
         raise RuntimeError(out[-1500:])
     quick = ctx.tier == "quick"
     rng = random.Random(ctx.seed * 53 + 11)
-    hs = [dict(h) for h in streams.corpus("handles")] + directed_handle_histories()
+    hs = [dict(h) for h in streams.corpus("handles")] + directed_handle_histories() + two_handle_histories()
     for i in range(120 if quick else 1500):
         hs.append(handle_history(random.Random(rng.random()), rng.choice([1, 3, 20]), rng.choice(["file", "file", "memory"]),
                                  rng.randint(2, 10 if quick else 28), rng.choice([0, 10, 600, 1500])))
@@ -263,7 +288,7 @@ def c14_tie(ctx, data):
     terms, idx = [], []
     for k, d in enumerate(data):
         h, res = d["h"], d["res"]
-        if h["config"].get("cache") != "file" or d["rc"] != 0:
+        if h["config"].get("cache") != "file" or d["rc"] != 0 or h.get("_nomodel"):
             continue
         calls = h["calls"]
         oi = next(i for i, c in enumerate(calls) if c["op"] == "open")
